@@ -712,8 +712,12 @@ type lockedBuf struct {
 	b  bytes.Buffer
 }
 
-func (l *lockedBuf) Write(p []byte) (int, error) { l.mu.Lock(); defer l.mu.Unlock(); return l.b.Write(p) }
-func (l *lockedBuf) Read(p []byte) (int, error)  { l.mu.Lock(); defer l.mu.Unlock(); return l.b.Read(p) }
+func (l *lockedBuf) Write(p []byte) (int, error) {
+	l.mu.Lock()
+	defer l.mu.Unlock()
+	return l.b.Write(p)
+}
+func (l *lockedBuf) Read(p []byte) (int, error) { l.mu.Lock(); defer l.mu.Unlock(); return l.b.Read(p) }
 
 func TestRace_IOCloser(t *testing.T) {
 	for round := 0; round < 4; round++ {
